@@ -107,7 +107,7 @@ def gen_scenario(rng: random.Random, seed: int, cls: str) -> dict:
         members.append(m)
     sc = dict(cls=cls, seed=seed, topics=topics, loglen=rng.choice([2, 4, 8]), nnodes=rng.choice([1, 2, 3]),
               join_max=rng.choice([0, 1, 2, 5, 5]), duration=dur, members=members, faults=dict(budget=0))
-    if cls in ("churn", "faults", "subs", "live", "syncfault", "latelookup", "grow"):
+    if cls in ("churn", "faults", "subs", "live", "syncfault", "latelookup", "grow", "slowrevoke", "joinauth"):
         for m in members:
             r = rng.random()
             if r < 0.30:
@@ -131,6 +131,31 @@ def gen_scenario(rng: random.Random, seed: int, cls: str) -> dict:
             m["listener_sleep"] = rng.choice([0.05, 0.15, 0.3])
         sc["appends"] = [[round(0.2 + rng.random() * dur, 3), "t", rng.randrange(topics["t"]), rng.randrange(1, 3)]
                          for _ in range(rng.randrange(6, 16))]
+    if cls == "slowrevoke":
+        # one member's on_partitions_revoked takes longer than ITS rebalance timeout (the group's effective timeout, the
+        # largest of the members', is longer): it must still finish before that member rejoins
+        k = rng.randrange(len(members))
+        members[k]["rebalance_timeout_ms"] = rng.choice([300, 500])
+        members[k]["listener_sleep"] = rng.choice([0.7, 1.1])
+        members[k]["start"] = 0
+        if len(members) == 1:
+            members.append(dict(members[0], start=round(0.4 + rng.random() * 0.5, 3), listener_sleep=0, rebalance_timeout_ms=3000))
+        else:
+            for j, m in enumerate(members):
+                if j != k:
+                    m["start"] = max(m["start"], 0.4)
+        for m in members:
+            if m.get("end") and m["end"][1] < m["start"] + 0.3:
+                m["end"][1] = round(m["start"] + 0.3 + rng.random() * dur * 0.6, 3)
+    if cls == "joinauth":
+        # the coordinator answers one JoinGroup of a re-joining member with GROUP_AUTHORIZATION_FAILED while records are
+        # buffered and a getone() is parked at the rebalance gate: the error is raised, nothing of the old assignment comes out
+        for m in members:
+            m["mode"] = "getone"
+            m["listener_sleep"] = rng.choice([0.05, 0.2])
+        sc["appends"] = [[round(0.2 + rng.random() * dur, 3), "t", rng.randrange(topics["t"]), rng.randrange(1, 4)]
+                         for _ in range(rng.randrange(8, 18))]
+        sc["faults"] = dict(budget=0, script=[["JoinGroup", rng.randrange(2, 7), "error", 30]], slow=rng.choice([0, 0.005]))
     if cls == "syncfault":
         # the coordinator moves / is unavailable exactly at a SyncGroup of a member that already held an assignment
         sc["faults"] = dict(budget=0, script=[["SyncGroup", rng.randrange(2, 6), "error", rng.choice([15, 16])]],
@@ -186,6 +211,15 @@ def classify(sc, trace, v):
     e = ev["e"]
     props = EVENT_PROP.get(e, {"C04", "C05", "C06"})
     extra = ""
+    if e == "JoinRequest":
+        # the guard of JoinRequest carries clauses of two properties: tell them apart by the history --
+        # the member's on_partitions_revoked has begun and not ended => C05 (revoke finishes before the rejoin)
+        c = ev.get("c")
+        k = v["reached"] - 1
+        starts = [i for i, x in enumerate(trace[:k]) if x["e"] == "RevokeStart" and x.get("c") == c]
+        ends = [i for i, x in enumerate(trace[:k]) if x["e"] == "RevokeEnd" and x.get("c") == c]
+        if starts and (not ends or ends[-1] < starts[-1]):
+            props, extra = {"C05"}, ":revoke-callback-still-running"
     if e in ("Hang", "Crash"):
         extra = ":" + str(ev.get("why", ev.get("err", "")))[:40]
     return props, f"reject:{e}{extra}"
